@@ -11,6 +11,11 @@ def main(path):
         rec = json.load(f)
     job = {"module": rec["module"], "factory": rec["factory"], "params": _untuple(rec.get("params", {}))}
     body = load_body(job)
+    for h in rec.get("history", []):          # history-dependent failure: run the earlier inputs first
+        try:
+            run_concrete(body, h)
+        except BaseException:
+            pass
     kind, obs, notes, detail = run_concrete(body, rec["values"])
     failed = [n for n, v, _ in obs if not v]
     print(json.dumps({"kind": kind, "failed": failed, "detail": detail, "notes": notes}, default=str, indent=1)[:4000])
